@@ -71,7 +71,8 @@ func (c *Check) feeUnits(rule string) *feeUnits {
 	for _, f := range c.handFuncs("keeper") {
 		pays, deletes := false, false
 		for _, e := range c.P.SummaryOf(f).Effs {
-			if isFeeRefund(e) && len(e.Chain) == 0 {
+			// directly, or through a helper that looks up the address to pay to
+			if isFeeRefund(e) && len(e.Chain) <= 1 {
 				pays = true
 			}
 			if e.Kind == "store" && e.Op == "Delete" && e.Family == "0x18" {
@@ -128,7 +129,7 @@ func (c *Check) expandHandlerDecisions(u *feeUnits) {
 	role := func(e *Eff) bool { return e.Mutates() && (e.Kind == "store" || e.Kind == "bank") }
 	changed := false
 	for _, b := range []*Binding{u.NB, u.EB, u.ER} {
-		if b == nil || b.Closure == nil {
+		if b == nil || b.Closure == nil || b.Inline {
 			continue
 		}
 		f := b.Closure
@@ -152,6 +153,15 @@ func (c *Check) expandHandlerDecisions(u *feeUnits) {
 				guards := map[string]bool{}
 				kinds := map[string]bool{}
 				credits := false
+				scansItself := false
+				for _, e := range c.P.SummaryOf(g).Effs {
+					if e.Kind == "store" && e.Op == "Iter" && len(e.Chain) <= 1 {
+						scansItself = true // a scan with its per-element handling written in place is a unit, not a decision of the handler
+					}
+				}
+				if scansItself {
+					continue
+				}
 				for _, e := range c.P.SummaryOf(g).Effs {
 					if !role(e) {
 						continue
